@@ -14,7 +14,7 @@ from .. import exact, gen, probes, monitors
 RULE = ("(a) round trips: every class x len 0-64 x nchan 1-9 x alignment x rates 1 Hz-4 GHz x chan_bw/fc 1e-9..0.3: split by direct slicing "
         "at random cut points (repeated, 0, len) along time, or along frequency for radio classes, strip the start time of any subset "
         "of pieces, concatenate (axis given as 0/'time'/1/'freq'/2): data bitwise, start time (exact rational), rate, labels (band "
-        "model); associativity over random groupings. (b) rejections: one piece perturbed by >= 1 sample (start +-k dt, swapped, "
+        "model); associativity over random groupings; 2-D grids of blocks reached by different slicing routes (equal start times computed by different arithmetic) joined rows-first and columns-first. (b) rejections: one piece perturbed by >= 1 sample (start +-k dt, swapped, "
         "duplicated, dropped), >= 1 channel (center_freq +-k chan_bw, other chan_bw), other rate (x2, x1.001, 1+delta with delta*len "
         ">= 1 on long Dask-backed pieces), other class, non-signals, 'freq' on non-radio, empty list; joining along a non-time axis "
         "with different start time or labels. Non-trivial = a round trip with >= 2 non-empty pieces or an asserted refusal; "
@@ -188,6 +188,8 @@ def wl_reject(ctx, idx, rng):
     if kind == "freq_on_nonradio":
         clsname = "Signal"
     nchan = int(gen.pick(rng, [2, 3, 4, 6, 9]))
+    if kind in ("bw", "rate2", "rate1001", "shift_plus", "shift_minus", "swap", "class") and rng.random() < 0.3:
+        nchan = 1
     align = gen.pick(rng, ["bottom", "center", "top"])
     n = int(gen.pick(rng, [4, 8, 16, 33, 64]))
     kw = {}
@@ -341,9 +343,64 @@ def wl_reject(ctx, idx, rng):
                            "pieces with different " + ("start time" if kind == "other_start_trailing" else "channel labels") + " joined along axis 2", axis=2)
 
 
+def wl_blocks(ctx, idx, rng):
+    """2-D regroupings: a radio signal cut into a grid of (time x frequency) blocks reached by different slicing routes; joining
+    rows then columns, or columns then rows, reproduces the original (split inverse + associativity across axes)."""
+    clsname = gen.RADIO[idx % 5]
+    nchan = int(gen.pick(rng, [2, 3, 4, 6, 8]))
+    align = gen.pick(rng, ["bottom", "center", "top"])
+    n = int(gen.pick(rng, [4, 9, 16, 33]))
+    if clsname in gen.BASEBAND:
+        rate = gen.rand_rate(rng, lo=0.0, hi=9.0)
+        kw = dict(rate=rate)
+    else:
+        kw = dict(rate=gen.rand_rate(rng, lo=0.0, hi=9.0), chan_bw=gen.rand_freq(rng, 1e3, 1e8))
+    # a start time with a non-round day fraction, so differently computed equal times differ in the last bit
+    start = gen.rand_time(rng, p_none=0.0)
+    start = start + float(rng.uniform(0.1, 0.9)) * u.s
+    sig, desc = gen.make_signal(rng, clsname, n, nchan=nchan, align=align, start=start, fc=gen.rand_freq(rng, 3e9, 3e10), **kw)
+    a = int(rng.integers(0, n - 1))
+    b = int(rng.integers(1, n - a))
+    f = int(rng.integers(1, nchan))
+    o = "roundtrip"
+    feats = {"axis": "grid", "cls": clsname}
+    with probes.quiet():
+        # the same time range [a+b:] reached by two routes
+        tl, tr = sig[:a + b, :f], sig[:a + b, f:]
+        bl = sig[a:][b:, :f]
+        br = sig[a + b:, f:]
+        br2 = sig[a + b:][:, f:]
+    desc.update(grid=[a, b, f])
+    ctx.describe_case(desc)
+    ctx.sample(desc, limit=3)
+    bottom, e1 = ctx.call(o, pb.concatenate, [bl, br], where="join along freq: z[a:][b:, :f] next to z[a+b:, f:]", axis=gen.pick(rng, [1, "freq"]), features=feats)
+    top, e2 = ctx.call(o, pb.concatenate, [tl, tr], where="join along freq (top row)", axis=1, features=feats)
+    if e1 is None and e2 is None:
+        whole, e3 = ctx.call(o, pb.concatenate, [top, bottom], where="join rows along time", features=feats)
+        if e3 is None:
+            compare(ctx, o, sig, whole, 4, feats)
+            ctx.count("oracle[grid]")
+    left, e4 = ctx.call(o, pb.concatenate, [tl, bl], where="join along time (left column)", features=feats)
+    right, e5 = ctx.call(o, pb.concatenate, [tr, br2], where="join along time (right column)", features=feats)
+    if e4 is None and e5 is None:
+        whole2, e6 = ctx.call(o, pb.concatenate, [left, right], where="join columns along freq", axis="freq", features=feats)
+        if e6 is None:
+            compare(ctx, o, sig, whole2, 4, feats)
+            ctx.count("oracle[grid]")
+    # a band first joined in time with a leading piece lacking a start time, then joined along frequency
+    with probes.quiet():
+        lead = strip_start(sig[:a + b, :f])
+    col, e7 = ctx.call(o, pb.concatenate, [lead, bl], where="undated piece + dated piece along time", features=feats)
+    if e7 is None and e5 is None:
+        whole3, e8 = ctx.call(o, pb.concatenate, [col, right], where="join along freq after back-computing the start time", axis=1, features=feats)
+        if e8 is None:
+            compare(ctx, o, sig, whole3, 4, feats)
+    ctx.bucket("grid", clsname, nchan, align, a == 0)
+
+
 def workloads(ctx):
     q = ctx.tier == "quick"
-    return [("roundtrip", 1620 if q else 64800, wl_roundtrip), ("reject", len(PERT) * 6 * (4 if q else 100), wl_reject)]
+    return [("blocks", 400 if q else 16000, wl_blocks), ("roundtrip", 1620 if q else 64800, wl_roundtrip), ("reject", len(PERT) * 6 * (4 if q else 100), wl_reject)]
 
 
 def setup(ctx):
@@ -354,3 +411,4 @@ def finalize(ctx):
     ctx.require("oracle[roundtrip]", 500, "round-trip oracle")
     ctx.require("oracle[associativity]", 100, "associativity oracle")
     ctx.require("oracle[rejection]", 300, "rejection oracle")
+    ctx.require("oracle[grid]", 100, "2-D regrouping oracle")
